@@ -203,7 +203,7 @@ func (c03) Exec(c *sim.Case, env *Env) []sim.Violation {
 					env.Stats.Probe("nested_table_saved")
 				}
 				for _, d := range TreeDiffAll(ra, rb) {
-					add("lost-on-reopen", foldNested("word/document.xml:"+d[0], nested), d[1])
+					add("lost-on-reopen", "word/document.xml:"+d[0], d[1])
 				}
 			}
 			// other parts: canonically equal
